@@ -172,23 +172,26 @@ Section Step.
       else if 4294967296 <=? sum then (if ovf then Panic else if plen mod 4294967296 <? sum mod 4294967296 then Err else Ok tt)
       else if plen mod 4294967296 <? sum then Err else Ok tt.
 
+  (* the manager is consulted only when no piece or another piece is loaded *)
+  Definition need_ask (s : hst) (ri : N) : bool :=
+    match h_tx s with Some t => negb (tx_index t =? ri) | None => true end.
+  (* trigger_cmd_recv_request: what is loaded afterwards *)
+  Definition load_tx (s : hst) (ri : N) (reply : option reply) : result (option txs) :=
+    if need_ask s ri then
+      match reply with
+      | Some (RReq_Load i) =>
+          match disk (hash_of cf i) with
+          | Some data => Ok (Some (mktx i data))
+          | None => Err                                          (* FileNotFound *)
+          end
+      | Some RReq_Ignore => Ok None
+      | _ => Err
+      end
+    else Ok (h_tx s).
+
   Definition handle_request (ovf : bool) (s : hst) (ri rb rl : N) (reply : option reply) : outcome :=
-    let ask := match h_tx s with Some t => negb (tx_index t =? ri) | None => true end in
-    (* trigger_cmd_recv_request *)
-    let pre := if ask then [ACmd (KRequest ri)] else [] in
-    let loaded : result (option txs) :=
-      if ask then
-        match reply with
-        | Some (RReq_Load i) =>
-            match disk (hash_of cf i) with
-            | Some data => Ok (Some (mktx i data))
-            | None => Err                                          (* FileNotFound *)
-            end
-        | Some RReq_Ignore => Ok None
-        | _ => Err
-        end
-      else Ok (h_tx s) in
-    match loaded with
+    let pre := if need_ask s ri then [ACmd (KRequest ri)] else [] in
+    match load_tx s ri reply with
     | Ok (Some t) =>
         let s1 := set_tx s (Some t) in
         match request_validate ovf ri rb rl (tx_index t) (len (tx_buff t)) with
